@@ -118,15 +118,15 @@ let fmt_of = function "file" -> File | "net" -> Net | s -> failwith ("fmt " ^ s)
 let run_target (hd : string) (f : fmt) (target : string) (bytes : n list) : unit =
   let fuel = nat_of_int (List.length bytes + 2) in
   match target with
-  | "any" -> show hd pr_aval (run_flat (decode f (dec_any fuel)) bytes)
-  | "map" -> show hd pr_aval (run_flat (decode f (dec_map fuel)) bytes)
-  | "raw" -> show hd (fun b (id, data) -> Buffer.add_string b ("R" ^ dec_of_n id ^ ":"); hexs b data) (run_flat (decode f (dec_raw fuel)) bytes)
-  | "dyn" -> show hd pr_dval (run_flat (decode f (dec_dyn fuel)) bytes)
-  | "snbt" -> show hd (fun b () -> Buffer.add_char b '-') (run_flat (decode f (dec_snbt fuel)) bytes)
-  | "skip" -> show hd (fun b () -> Buffer.add_char b '-') (run_flat (decode f (dec_struct0 fuel)) bytes)
+  | "any" -> show hd pr_aval (run_fast (decode f (dec_any fuel)) bytes)
+  | "map" -> show hd pr_aval (run_fast (decode f (dec_map fuel)) bytes)
+  | "raw" -> show hd (fun b (id, data) -> Buffer.add_string b ("R" ^ dec_of_n id ^ ":"); hexs b data) (run_fast (decode f (dec_raw fuel)) bytes)
+  | "dyn" -> show hd pr_dval (run_fast (decode f (dec_dyn fuel)) bytes)
+  | "snbt" -> show hd (fun b () -> Buffer.add_char b '-') (run_fast (decode f (dec_snbt fuel)) bytes)
+  | "skip" -> show hd (fun b () -> Buffer.add_char b '-') (run_fast (decode f (dec_struct0 fuel)) bytes)
   | _ when String.length target > 3 && String.sub target 0 3 = "ty:" ->
       let ty = parse_ty (String.sub target 3 (String.length target - 3)) in
-      show hd pr_tval (run_flat (decode f (dec_ty fuel ty)) bytes)
+      show hd pr_tval (run_fast (decode f (dec_ty fuel ty)) bytes)
   | _ -> print_endline (hd ^ " ?target")
 
 let () = iter_lines (fun line ->
